@@ -168,6 +168,13 @@ func RunOne(o core.RunOpts) (res *core.RunResult) {
 			break
 		}
 		if w.Divergence != "" {
+			if e.Prop == "C09" && w.DivergedResp[0] != nil {
+				// two nodes executed the same block on the same state: if they selected different committees, that is C09's
+				if d := selectionDiff(w.DivergedResp[0], w.DivergedResp[1]); d != "" {
+					e.Fail("C09", "selection_differs_between_replicas", "", "%s; %s", w.Divergence, d)
+					break
+				}
+			}
 			e.Fail("C02", "replica_divergence", "", "%s", w.Divergence)
 			break
 		}
@@ -187,6 +194,7 @@ func RunOne(o core.RunOpts) (res *core.RunResult) {
 		}
 		pumpGuidance(e, blk)
 	}
+	importedStateChecks(e)
 	if e.Viol == nil {
 		for _, m := range e.Monitors {
 			if m.Prop() == e.Prop {
@@ -209,6 +217,47 @@ func firstLine(s string) string {
 		return s[:i]
 	}
 	return s
+}
+
+// selectionDiff compares the committee-selection events (signing assignments, oracle request validators) of two executions of
+// one block and describes the first difference.
+func selectionDiff(a, b *abci.ResponseFinalizeBlock) string {
+	pick := func(r *abci.ResponseFinalizeBlock) []string {
+		var out []string
+		add := func(evs []abci.Event) {
+			for _, ev := range evs {
+				if ev.Type != "request_signature" && ev.Type != "request" && ev.Type != "create_signing_request" {
+					continue
+				}
+				s := ev.Type
+				for _, at := range ev.Attributes {
+					if at.Key == "mode" || at.Key == "msg_index" {
+						continue
+					}
+					s += " " + at.Key + "=" + at.Value
+				}
+				out = append(out, s)
+			}
+		}
+		for _, tr := range r.TxResults {
+			add(tr.Events)
+		}
+		add(r.Events)
+		return out
+	}
+	x, y := pick(a), pick(b)
+	for i := range x {
+		if i >= len(y) {
+			return fmt.Sprintf("selection event %d missing on the second replica: %s", i, x[i])
+		}
+		if x[i] != y[i] {
+			return fmt.Sprintf("selection event %d differs: {%s} vs {%s}", i, x[i], y[i])
+		}
+	}
+	if len(y) > len(x) {
+		return fmt.Sprintf("extra selection event on the second replica: %s", y[len(x)])
+	}
+	return ""
 }
 
 // pumpGuidance advances every shared reference model that no monitor of this profile advanced for this block (Advance is
